@@ -448,6 +448,13 @@ def plan_for(prop, tier, seed):
         P["families"] += plain({"C06": "eager", "C07": "try", "C10": "limit"}[prop], streams=prop == "C06")
     elif prop == "C09":
         P["families"] += plain(None)
+    elif prop in ("C11", "C12", "C13", "C14", "C16", "C17", "C18"):
+        # the builder and the sequential APIs do not depend on the feature; the second build has debug assertions ON
+        P["families"] += [fam("builder_rand", shards=1, plain=True, tag="p"), fam("builder_big", shards=1, plain=True, tag="p")]
+        if prop == "C16":
+            P["families"] += [fam("builder_calls", shards=2, sample=2 if T else 8, plain=True, tag="p")]
+        if prop == "C18":
+            P["families"] += [fam("dense", shards=1, plain=True, tag="p")]
     elif prop == "C15":
         P["families"] += [fam("multi_seq", shards=2, count=5000 if T else 500, plain=True, tag="p")]
     elif prop == "C20":
